@@ -520,7 +520,10 @@ def main(argv):
     ev = {
         "property_id": prop, "tier": a.tier, "seed": seed, "level": "proof",
         "coverage": {
-            "obligations": len(obs), "discharged": len(discharged),
+            # obligations the claim rests on: an obligation that is refuted and listed as a KNOWN FINDING is not claimed
+            # (it is reported on its own line and counted under `known_finding_obligations`)
+            "obligations": len(obs) - len({ob["name"] for _, ob in known_hits if any(o["name"] == ob["name"] for o in obs)}), "discharged": len(discharged),
+            "known_finding_obligations": sorted({ob["name"] for _, ob in known_hits}),
             "contract_obligations": sum(1 for o in obs if o.get("contract")),
             "contract_discharged": sum(1 for o in discharged if o.get("contract")),
             "checker_cmd": "; ".join(sorted({r.get("checker_cmd", "") for r in results if r.get("checker_cmd")}))[:4000],
